@@ -82,8 +82,9 @@ def run_case(case, ctx):
         ds, winfo = writers.mpas_dataset(mesh, radius=case["radius"], edge_perm_seed=case["edge_seed"], withhold=case["withhold"])
         g = ux.open_grid(ds)
     else:
-        g = build.grid_from_mesh(mesh)
-    site = case["src"]
+        # topology arrays, in half of the cases with Cartesian node coordinates on a sphere of the drawn radius
+        g = build.grid_from_mesh(mesh, **(build.cartesian_kw(mesh, case["radius"]) if case["radius"] != 1.0 else {}))
+    site = case["src"] + (":cartesian-radius" if case["src"] != "mpas" and case["radius"] != 1.0 else "")
 
     def bad(oracle, kind, detail, s=None):
         fails.append(Failure(oracle, s or site, kind, detail))
